@@ -46,8 +46,18 @@ func (c *container) conf(conf *containerConfig) error {
 	return c.recvAckReply("conf")
 }
 
+// maxOpenFiles is the number of file descriptors a single message can carry
+// (SCM_MAX_FD); the container answers an open request with one message
+const maxOpenFiles = 253
+
 // Open open files in container
 func (c *container) Open(p []OpenCmd) (results []OpenCmdResult, err error) {
+	// a reply carrying more descriptors cannot be sent (sendmsg: EINVAL) and
+	// the container would exit with every file of the batch open
+	if len(p) > maxOpenFiles {
+		return nil, fmt.Errorf("open: too many files in one request: %d > %d", len(p), maxOpenFiles)
+	}
+
 	c.mu.Lock()
 	defer c.mu.Unlock()
 
